@@ -13,6 +13,8 @@ NoPanic == E.status # "panic"
 IsDoc == E.kind = "doc"
 DocParses == IsDoc => E.status = "ok"
 DocFixpoint == (IsDoc /\ E.status = "ok") => E.fixpoint
+\* the documents offered are written the way the serialiser writes them (canonical names, absent = null): the first pass keeps every member
+DocKeptByFirstPass == (IsDoc /\ E.status = "ok") => E.firstPassSame
 \* initial solution
 IsInit == E.kind = "init" /\ E.status \in {"ok", "init-err", "rewrite-err"}
 InitReadable == IsInit => E.status = "ok"                    \* "is read without error"
@@ -31,6 +33,7 @@ CsvValid == (CsvOk /\ RT_TablesWellFormed(E.rows, E.vrows)) => E.valid
 J_NoPanic == Judge("NoPanic", NoPanic)
 J_DocParses == Judge("DocParses", DocParses)
 J_DocFixpoint == Judge("DocFixpoint", DocFixpoint)
+J_DocKeptByFirstPass == Judge("DocKeptByFirstPass", DocKeptByFirstPass)
 J_InitReadable == Judge("InitReadable", InitReadable)
 J_InitSameJobsPerShift == Judge("InitSameJobsPerShift", InitSameJobsPerShift)
 J_InitSameOrder == Judge("InitSameOrder", InitSameOrder)
